@@ -109,8 +109,11 @@ def obj_view(m, answers):
 
 
 class WorkBudgetExceeded(BaseException):
-    """raised by the watchdog timer: the decoder did not finish within WATCHDOG_S seconds of wall clock
-    (a decode of an 8966-byte datagram takes milliseconds; the property demands a fixed work budget)"""
+    """raised by the watchdog timer: the decoder did not finish within WATCHDOG_S seconds of CPU time
+    (a decode of an 8966-byte datagram takes milliseconds, a line-traced one well under a second; the property
+    demands a fixed work budget).  This is only the hard stop that keeps the harness from hanging: the budget
+    itself is measured in executed source lines (`steps`, see `observe`) and, for work hidden inside C calls, in
+    CPU time relative to a yardstick loop (`cpu_check`)."""
 
 
 WATCHDOG_S = 4.0
@@ -122,28 +125,121 @@ def _watchdog(signum, frame):
 
 LISTENER_ARGS = (("192.0.2.7", 5353), 3, 1000000.0)  # source, scope_id, now -- as _listener.py:147 passes them
 
+WORK_KEYS = ("questions", "records", "bm_calls", "bm_iters", "bm_bits", "bm_types")
+_loops = {}
 
-def observe(data: bytes, count_reads=False, listener_args=False):
-    """run the real decoder; -> dict(status, exc, counters, obj)"""
+
+def loop_lines():
+    """Locate, in the source of the tree under test, the loops a datagram drives besides the name decoder: the first
+    body line of the `for` loops of `_read_questions` / `_read_others`, and in `_read_bitmap` the first body line of
+    the `while`, the bit test and the append.  Found through the AST (first loop among the direct children, so an
+    added statement or a moved line does not break the measurement).  -> {code: {lineno: index into the counter
+    list}} or None when the shape is not there (then the loop counters are not measured and only `steps` is)."""
+    if "v" in _loops:
+        return _loops["v"]
+    import ast
+    import inspect
+    import textwrap
+
+    cls = impl()["inc"].DNSIncoming
+
+    def first(stmts, kind):
+        for s in stmts:
+            if isinstance(s, kind):
+                return s
+        return None
+
+    out = {}
+    try:
+        for fname, idx in (("_read_questions", 1), ("_read_others", 2)):
+            fn = getattr(cls, fname)
+            src, at = inspect.getsourcelines(fn)
+            loop = first(ast.parse(textwrap.dedent("".join(src))).body[0].body, ast.For)
+            out[fn.__code__] = {at + loop.body[0].lineno - 1: idx}
+        fn = cls._read_bitmap
+        src, at = inspect.getsourcelines(fn)
+        wh = first(ast.parse(textwrap.dedent("".join(src))).body[0].body, ast.While)
+        outer = first(wh.body, ast.For)
+        inner = first(outer.body, ast.For)
+        test = first(inner.body, ast.If)
+        lines = {at + wh.body[0].lineno - 1: 4, at + test.lineno - 1: 5, at + test.body[0].lineno - 1: 6}
+        if len(lines) != 3:
+            raise ValueError("loop lines of _read_bitmap coincide")
+        out[fn.__code__] = lines
+        _loops["bm_code"] = fn.__code__
+    except Exception:  # noqa: BLE001 - a tree whose loops look different: measured by `steps` only
+        out = None
+    _loops["v"] = out
+    return out
+
+
+def pkg_prefix():
+    import os
+
+    return os.path.dirname(os.path.dirname(impl()["inc"].__file__)) + os.sep
+
+
+def observe(data: bytes, count_reads=False, listener_args=False, steps=False):
+    """run the real decoder; -> dict(status, exc, counters, obj).  With `steps`: also `steps` (source lines of the
+    zeroconf package executed, one more per call) and `work` (the loop counters of WORK_KEYS, None if not measurable)"""
     import signal
 
-    old = signal.signal(signal.SIGALRM, _watchdog)
-    signal.setitimer(signal.ITIMER_REAL, WATCHDOG_S)
+    old = signal.signal(signal.SIGVTALRM, _watchdog)
+    signal.setitimer(signal.ITIMER_VIRTUAL, WATCHDOG_S)
     try:
-        return _observe(data, count_reads, listener_args)
+        return _observe(data, count_reads, listener_args, steps)
     except WorkBudgetExceeded:
         sys.setprofile(None)
-        return {"status": "nontermination", "exc": "WorkBudgetExceeded", "names": 0, "acts": 0, "depth": 0, "obj": None, "reads": 0}
+        sys.settrace(None)
+        return {"status": "nontermination", "exc": "WorkBudgetExceeded", "names": 0, "acts": 0, "depth": 0, "obj": None, "reads": 0,
+                "steps": None, "work": None}
     finally:
-        signal.setitimer(signal.ITIMER_REAL, 0)
-        signal.signal(signal.SIGALRM, old)
+        signal.setitimer(signal.ITIMER_VIRTUAL, 0)
+        signal.signal(signal.SIGVTALRM, old)
 
 
-def _observe(data: bytes, count_reads=False, listener_args=False):
+def _line_tracer(lc):
+    """-> (global trace function, lc) counting into lc = [steps, questions, records, bm_calls, bm_iters, bm_bits, bm_types]"""
+    special = loop_lines() or {}
+    bm_code = _loops.get("bm_code")
+    prefix = pkg_prefix()
+
+    def plain(frame, event, arg):
+        if event == "line":
+            lc[0] += 1
+        return plain
+
+    def mk(m):
+        def sp(frame, event, arg):
+            if event == "line":
+                lc[0] += 1
+                i = m.get(frame.f_lineno)
+                if i is not None:
+                    lc[i] += 1
+            return sp
+        return sp
+
+    sps = {code: mk(m) for code, m in special.items()}
+
+    def tracer(frame, event, arg):
+        co = frame.f_code
+        if co.co_filename.startswith(prefix):
+            lc[0] += 1
+            if co is bm_code:
+                lc[3] += 1
+            return sps.get(co, plain)
+        return None
+
+    return tracer
+
+
+def _observe(data: bytes, count_reads=False, listener_args=False, steps=False):
     I = impl()
     inc = I["inc"]
     dec_code, name_code = I["dec_code"], I["name_code"]
     cnt = [0, 0, 0, 0]  # names, acts, depth, maxdepth
+    lc = [0] * 7
+    tracer = _line_tracer(lc) if steps else None
 
     def prof(frame, event, arg):
         if event == "call":
@@ -169,11 +265,14 @@ def _observe(data: bytes, count_reads=False, listener_args=False):
     depth_here = len(_stack())
     sys.setrecursionlimit(depth_here + 5 + REC_BUDGET)
     sys.setprofile(prof)
+    if tracer is not None:
+        sys.settrace(tracer)
     try:
         try:
             m = inc.DNSIncoming(data, *LISTENER_ARGS) if listener_args else inc.DNSIncoming(data)
         except Exception as e:  # noqa: BLE001 - the property is about *any* exception
             sys.setprofile(None)
+            sys.settrace(None)
             status, exc = "init-raised", exc_name(e)
             m = None
         if m is not None:
@@ -181,19 +280,121 @@ def _observe(data: bytes, count_reads=False, listener_args=False):
                 ans = m.answers()
             except Exception as e:  # noqa: BLE001
                 sys.setprofile(None)
+                sys.settrace(None)
                 status, exc = "answers-raised", exc_name(e)
                 ans = m._answers
             sys.setprofile(None)
+            sys.settrace(None)
             obj = obj_view(m, ans)
     finally:
         sys.setprofile(None)
+        sys.settrace(None)
         sys.setrecursionlimit(old_limit)
+    # `_seen_logs` keeps one exc_info per distinct message text for ever (finding D24, notes/fixes/D24.diff): the harness bounds its own
+    # memory by emptying the dict; the growth itself is measured and reported by `seen_logs_stream`
     if len(inc._seen_logs) > 2000:
         inc._seen_logs.clear()
     out = {"status": status, "exc": exc, "names": cnt[0], "acts": cnt[1], "depth": cnt[3], "obj": obj}
     if count_reads:
         out["reads"] = CountingBytes.reads
+    if steps:
+        out["steps"] = lc[0]
+        out["work"] = tuple(lc[1:]) if loop_lines() is not None else None
     return out
+
+
+# ------------------------------------------------------------------------------------------
+# work hidden inside C calls (list.sort, `x in list`, list.insert, ...) is invisible to line events: CPU time per
+# executed line, relative to a yardstick loop timed on this machine under this load
+
+CPU_SLACK = 25      # allowed: CPU_SLACK * (seconds per yardstick line) * steps(datagram) + CPU_FLOOR_S
+CPU_FLOOR_S = 0.05
+CPU_MIN_STEPS = 20000  # below that a decode takes about a millisecond: nothing to measure
+_yard = {}
+
+
+def _yardstick_loop(n):
+    """the decoder's own inner-loop idiom: bit tests and appends; executes 3 + n * (2 + 8 * 2) + popcounts lines"""
+    out = []
+    for i in range(n):
+        byte = i & 0xFF
+        for bit in range(0, 8):
+            if byte & (0x80 >> bit):
+                out.append(bit + i * 8)
+    return out
+
+
+def yardstick(fresh=False):
+    """CPU seconds per executed source line of `_yardstick_loop` (best of 3)"""
+    import time
+
+    if "lines" not in _yard:
+        n = [0]
+
+        def local(frame, event, arg):
+            if event == "line":
+                n[0] += 1
+            return local
+
+        def tr(frame, event, arg):
+            return local if frame.f_code is _yardstick_loop.__code__ else None
+
+        sys.settrace(tr)
+        try:
+            _yardstick_loop(3000)
+        finally:
+            sys.settrace(None)
+        _yard["lines"] = n[0]
+    if fresh or "t" not in _yard:
+        best = None
+        for _ in range(3):
+            t = time.process_time()
+            _yardstick_loop(3000)
+            dt = time.process_time() - t
+            best = dt if best is None else min(best, dt)
+        _yard["t"] = max(best, 1e-6) / _yard["lines"]
+    return _yard["t"]
+
+
+def cpu_seconds(data, listener_args=False):
+    """CPU time of one untraced DNSIncoming(data) + answers()"""
+    import time
+
+    inc = impl()["inc"]
+    t = time.process_time()
+    try:
+        m = inc.DNSIncoming(data, *LISTENER_ARGS) if listener_args else inc.DNSIncoming(data)
+        m.answers()
+    except Exception:  # noqa: BLE001 - reported by observe()
+        pass
+    return time.process_time() - t
+
+
+def cpu_check(data, steps):
+    """-> (ok, seconds, allowed): the untraced decode must not take more CPU than CPU_SLACK yardstick lines per executed
+    line (+ floor).  A failure is re-measured twice with a fresh yardstick; the best ratio counts."""
+    import signal
+
+    old = signal.signal(signal.SIGVTALRM, _watchdog)
+    try:
+        worst = None
+        for attempt in range(3):
+            per_line = yardstick(fresh=attempt > 0)
+            allowed = CPU_SLACK * per_line * steps + CPU_FLOOR_S
+            signal.setitimer(signal.ITIMER_VIRTUAL, max(WATCHDOG_S, 4 * allowed))
+            try:
+                sec = cpu_seconds(data)
+            except WorkBudgetExceeded:
+                sec = max(WATCHDOG_S, 4 * allowed)
+            finally:
+                signal.setitimer(signal.ITIMER_VIRTUAL, 0)
+            if sec <= allowed:
+                return True, sec, allowed
+            if worst is None or sec / allowed < worst[0] / worst[1]:
+                worst = (sec, allowed)
+        return False, worst[0], worst[1]
+    finally:
+        signal.signal(signal.SIGVTALRM, old)
 
 
 def _stack():
@@ -777,6 +978,80 @@ def late_pointer_packet(rng, target, total=None, padbyte=None):
     return w.finish(0, [n, 0, 0], flags=0x8400, id_=0), w
 
 
+def nsec_record(owner, nxt, windows, rdlen=None, cls=1):
+    """one NSEC record: `windows` = [(window number, declared length, bitmap bytes actually written)]"""
+    rd = nxt + b"".join(bytes([w & 255, n & 255]) + bm for w, n, bm in windows)
+    return owner + struct.pack(">HHIH", 47, cls, 120, len(rd) if rdlen is None else rdlen) + rd
+
+
+def nsec_max_cases(rng, tier):
+    """NSEC records that drive `_read_bitmap` as hard as a datagram can: many windows, full bitmaps, datagrams near
+    8966 bytes, rdlength past the packet, windows that overshoot `end`, duplicated windows (second review, finding 1).
+    The strict parser accepts windows of 1..32 bytes in any order, duplicates included; the library reads any length."""
+    hdr = lambda n, nq=0: struct.pack(">HHHHHH", 0, 0x8400 if nq == 0 else 0, nq, n, 0, 0)  # noqa: E731
+    A, ROOT, FF = b"\x01a\x00", b"\x00", b"\xff"
+    out = []
+    # the reviewer's datagram: 34 windows of 255 x 0xFF (8764 bytes, 69 360 rdtypes); library-only (window length > 32)
+    out.append(hdr(1) + nsec_record(A, ROOT, [(w, 255, FF * 255) for w in range(34)]))
+    # strict-accepted maxima: all 256 windows with 32 x 0xFF (65 536 rdtypes, 8730 bytes); descending; one window 256 times
+    out.append(hdr(1) + nsec_record(A, ROOT, [(w, 32, FF * 32) for w in range(256)]))
+    out.append(hdr(1) + nsec_record(A, ROOT, [(w, 32, FF * 32) for w in reversed(range(256))]))
+    out.append(hdr(1) + nsec_record(A, ROOT, [(7, 32, FF * 32)] * 262))
+    out.append(hdr(1) + nsec_record(A, A, [(w, 32, bytes(rng.randrange(256) for _ in range(32))) for w in range(255)]))
+    # many small windows: 2 980 windows of one byte (8 966 bytes), 270 of them, alternating empty bitmaps
+    out.append(hdr(1) + nsec_record(ROOT, ROOT, [(w & 255, 1, FF) for w in range(2980)]))
+    out.append(hdr(1) + nsec_record(A, ROOT, [(w & 255, 1, FF) for w in range(270)]))
+    out.append(hdr(1) + nsec_record(A, ROOT, [(w & 255, 1, b"\x00") for w in range(1500)]))
+    out.append(hdr(1) + nsec_record(A, ROOT, [(0, 0, b"")] * 4000))                      # zero-length windows: 2 bytes per iteration
+    # duplicated windows (strict keeps both copies of every type)
+    out.append(hdr(1) + nsec_record(A, b"\x01b\x00", [(0, 1, b"\x40"), (0, 1, b"\x40")]))
+    out.append(hdr(1) + nsec_record(A, b"\x01b\x00", [(0, 2, b"\x40\x01"), (1, 1, b"\x80"), (0, 2, b"\x40\x01")]))
+    # rdlength past the packet: the loop runs into IndexError at the end of the datagram (record skipped, offset = end)
+    out.append(hdr(1) + nsec_record(A, ROOT, [(w, 255, FF * 255) for w in range(34)], rdlen=65535))
+    out.append(hdr(2) + nsec_record(A, ROOT, [(w, 32, FF * 32) for w in range(200)], rdlen=9000) + A + struct.pack(">HHIH", 1, 1, 120, 4) + b"\x0a\0\0\1")
+    out.append(hdr(1) + nsec_record(A, ROOT, [(1, 32, FF * 32)] * 100 + [(2, 255, FF * 7)]))   # last window silently short
+    out.append(hdr(1) + nsec_record(A, ROOT, [(1, 32, FF * 32)] * 100, rdlen=1 + 34 * 100 + 1) + b"\x05")  # a lone window byte at the very end
+    # windows that overshoot `end`: the offset is not reset on success, the next record is read from inside the bitmap
+    p = hdr(38)
+    for i in range(38):
+        p += nsec_record(b"\xc0\x0c" if i else A, ROOT, [(i, 8, FF * 8), (i, 200, FF * 200)], rdlen=1 + 10 + 2)
+    out.append(p)
+    # many NSEC records, each with a full window; compressed owners and next-names
+    for k, blen in ((180, 32), (25, 255), (400, 4)):
+        p = hdr(k)
+        for i in range(k):
+            if len(p) + 20 + blen > 8966:
+                p = p[:6] + struct.pack(">H", i) + p[8:]
+                break
+            p += nsec_record(b"\xc0\x0c" if i else A, b"\xc0\x0c" if i else ROOT, [(i & 255, blen, FF * blen)])
+        out.append(p)
+    # the same behind a question (records read lazily by answers())
+    out.append(hdr(1, nq=1) + A + struct.pack(">HH", 47, 1) + nsec_record(b"\xc0\x0c", b"\xc0\x0c", [(w, 32, FF * 32) for w in range(250)]))
+    for _ in range(6 if tier == "quick" else 150):
+        p = b""
+        k = rng.choice([1, 1, 2, 5, 30])
+        for i in range(k):
+            wins, size = [], 0
+            for _w in range(rng.choice([0, 1, 3, 40, 300, 3000]) // k + 1):
+                n = rng.choice([0, 1, 31, 32, 33, 255])
+                wins.append((rng.randrange(256), n, bytes(rng.choice([0xFF, 0xFF, 0, 0x80, rng.randrange(256)]) for _ in range(n if rng.random() < 0.9 else n // 2))))
+                size += 2 + len(wins[-1][2])
+                if size > 9000:
+                    break
+            p += nsec_record(b"\xc0\x0c" if i and rng.random() < 0.7 else A, rng.choice([ROOT, A, b"\xc0\x0c"]), wins,
+                             rdlen=None if rng.random() < 0.7 else rng.choice([0, 1, 3, 40, 9000, 65535]))
+            if len(p) > 8966 - 12:
+                break
+        out.append((hdr(k) + p)[:8966])
+    res = []
+    for p in out:
+        assert len(p) <= 8966, len(p)
+        res.append(("nsec-max", p))
+    for p in out[:: 3 if tier == "quick" else 1]:
+        res.append(("nsec-max-mutated", mutate(rng, p)))
+    return res
+
+
 ALPHABET = [0x00, 0x01, 0x3F, 0x40, 0xC0, 0x0C, 0xFF, 0x61]
 HEADERS = [struct.pack(">HHHHHH", 0, 0, 1, 0, 0, 0), struct.pack(">HHHHHH", 0, 0x8400, 0, 1, 0, 0)]
 
@@ -801,14 +1076,14 @@ def sig_of(obs):
     return None
 
 
-def check_case(res, data, stream, obs, mline, sline, bline, model_ok=True):
+def check_case(res, data, stream, obs, mline, sline, bline, model_ok=True, wline=None, wbline=None):
     """compare one datagram's observations; returns nothing, records into `res`"""
     case = {"hex": C.hx(data), "len": len(data), "stream": stream}
     res.evaluations += 1
     res.count("stream:" + stream)
     # ---------------- O: the property's sentences on the implementation
     if obs["status"] == "nontermination":
-        res.violate("C02:budget:no-termination", "decoding a %d-byte datagram did not finish within %.0f s of wall clock (unbounded loop)"
+        res.violate("C02:budget:no-termination", "decoding a %d-byte datagram did not finish within %.0f s of CPU time (a decode takes milliseconds: unbounded or super-linear loop)"
                     % (len(data), WATCHDOG_S), case)
         return
     if obs["status"] != "ok":
@@ -823,6 +1098,31 @@ def check_case(res, data, stream, obs, mline, sline, bline, model_ok=True):
     if bline is not None and bline != "1":
         res.violate("C02:budget", "work counters exceed the budget: names=%d activations=%d reads=%s depth=%d for %d bytes"
                     % (obs["names"], obs["acts"], obs.get("reads"), obs["depth"], len(data)), case)
+    # the loops besides the name decoder, and the executed source lines (second review, finding 1)
+    work = obs.get("work")
+    if obs.get("steps") is not None:
+        res.count("steps-measured")
+        if obs["steps"] > res.streams.get("max-steps", 0):
+            res.streams["max-steps"] = obs["steps"]
+            res.streams["max-steps-len"] = len(data)
+        if work is not None and work[4] % 8 == 0:
+            for k, v in zip(WORK_KEYS, work):
+                if v > res.streams.get("max-" + k, 0):
+                    res.streams["max-" + k] = v
+    if wbline is not None:
+        loops_ok, lines_ok = wbline.split()
+        if loops_ok != "1":
+            res.violate("C02:budget:loops", "loop counters exceed the linear budget for %d bytes: %s"
+                        % (len(data), ", ".join("%s=%d" % kv for kv in zip(WORK_KEYS, work))), case)
+        if lines_ok != "1":
+            res.violate("C02:budget:lines", "decoding a %d-byte datagram executed %d source lines of the package: more than the calibrated cost model allows "
+                        "for its loop counters (names=%d activations=%d reads=%s %s)"
+                        % (len(data), obs["steps"], obs["names"], obs["acts"], obs.get("reads"),
+                           " ".join("%s=%d" % kv for kv in zip(WORK_KEYS, work)) if work else "loops not measurable"), case)
+    if obs.get("cpu") is not None and not obs["cpu"][0]:
+        res.violate("C02:budget:cpu", "decoding a %d-byte datagram takes %.3f s of CPU time for %d executed source lines: more than %.3f s = %d yardstick lines "
+                    "per line (work hidden inside C calls: sort / membership test / insert on a list that grows with the datagram)"
+                    % (len(data), obs["cpu"][1], obs["steps"], obs["cpu"][2], CPU_SLACK), dict(case, rank=-obs["cpu"][1] / obs["cpu"][2]))
     strict = None
     if sline is not None:
         strict = parse_strict(sline)
@@ -856,6 +1156,17 @@ def check_case(res, data, stream, obs, mline, sline, bline, model_ok=True):
         if "reads" in obs:
             keys.append("reads")
         diff = [k for k in keys if obs[k] != mod[k]]
+        if wline is not None and work is not None:
+            try:
+                mw = tuple(int(x) for x in wline.split())
+            except ValueError:
+                mw = None
+            # the implementation's bit tests are eight per scanned bitmap byte
+            iw = work[:4] + ((work[4] // 8) if work[4] % 8 == 0 else ("%d/8" % work[4]),) + work[5:]
+            if mw is None or len(mw) != 6 or iw != mw:
+                obs = dict(obs, loops=iw)
+                mod = dict(mod, loops=mw if mw is not None else wline[:80])
+                diff.append("loops")
         grey = min(obs["depth"], mod["depth"]) >= REC_BUDGET - 20 and max(obs["depth"], mod["depth"]) <= REC_BUDGET + 20
         if diff and not grey:
             res.disagree(stream, case, {k: _short(obs[k]) for k in diff}, {k: _short(mod[k]) for k in diff})
@@ -1136,6 +1447,9 @@ def gen_cases(tier, rng, budget, res):
         p, w = late_pointer_packet(rng, rng.choice([rng.randrange(0x1000, 0x2000), rng.randrange(0x2000, 8800), rng.randrange(8180, 8210)]),
                                    rng.choice([None, 8966, 8193]) , rng.choice([None, 0, 0xC0, 0x01]))
         yield ("late-pointer", p)
+    # NSEC bitmaps as heavy as a datagram can make them
+    for case in nsec_max_cases(rng, tier):
+        yield case
     # exhaustive small strings
     Lq, Lr = (4, 3) if tier == "quick" else (6, 5)
     n_ex = 0
@@ -1179,6 +1493,16 @@ def gen_cases(tier, rng, budget, res):
         yield ("large-mutated", mutate(rng, p, w))
 
 
+def work_budget_line(b, o):
+    """the driver line that evaluates `workWithin` / `linesWithin` on the counters measured on the implementation; when the loop
+    counters could not be measured (a tree whose loops look different) or the label reads were not counted for this case, a
+    placeholder that keeps the line count (its one-token answer is mapped to None)"""
+    w = o.get("work")
+    if o.get("steps") is None or w is None or w[4] % 8 or "reads" not in o:
+        return "c02g 0"
+    return "c02wb %d %d %d %d %d %d %d %d %d %d %d" % (len(b), o["names"], o["acts"], o["reads"], w[0], w[1], w[2], w[3], w[4] // 8, w[5], o["steps"])
+
+
 def process(res, cases, driver_ok, base):
     """one chunk: run the implementation, the model, the strict decoder and the budget predicate; compare"""
     obs = []
@@ -1186,17 +1510,19 @@ def process(res, cases, driver_ok, base):
         i += base
         count_reads = (i % 3 == 0) or stream in ("graph", "chain") or stream.startswith("corpus")
         largs = i % 5 == 1
-        if count_reads:
-            o = observe(b, True, largs)
-            if i % 12 == 0:
-                o2 = observe(b, False)  # the counting wrapper must not change behaviour
-                o2["reads"] = o["reads"]
-                if o2 != o:
-                    res.disagree("counting-bytes", {"hex": C.hx(b)}, _short(o2), _short(o))
-        else:
-            o = observe(b, False, largs)
+        # label reads (counting `bytes` subclass) and executed lines (line tracer) are measured on every case; every twelfth case is
+        # decoded again without either: neither instrument may change behaviour
+        o = observe(b, True, largs, steps=True)
+        if i % 12 == 0 or count_reads and i % 4 == 0:
+            o2 = observe(b, False, largs)
+            o2["reads"] = o["reads"]
+            if o2 != {k: v for k, v in o.items() if k not in ("steps", "work")}:
+                res.disagree("counting-bytes", {"hex": C.hx(b)}, _short(o2), _short(o))
+        if o.get("steps") is not None and o["steps"] >= CPU_MIN_STEPS:
+            o["cpu"] = cpu_check(b, o["steps"])
+            res.count("cpu-checked")
         obs.append(o)
-    mlines = slines = blines = [None] * len(cases)
+    mlines = slines = blines = wlines = wblines = [None] * len(cases)
     if driver_ok:
         try:
             lines = []
@@ -1205,20 +1531,34 @@ def process(res, cases, driver_ok, base):
                 lines.append("c02 " + h)
                 lines.append("c02s " + h)
                 lines.append("c02b %d %d %d %d %d" % (len(b), o["names"], o["acts"], o.get("reads", 0), o["depth"]))
+                lines.append("c02w " + h)
+                lines.append(work_budget_line(b, o))
             out = C.run_driver(lines)
-            mlines, slines, blines = out[0::3], out[1::3], out[2::3]
+            mlines, slines, blines, wlines, wblines = out[0::5], out[1::5], out[2::5], out[3::5], out[4::5]
+            wblines = [x if " " in x else None for x in wblines]
         except C.DriverUnavailable as ex:
             res.notes.append("driver unavailable: %s" % ex)
             driver_ok = False
-    for (stream, b), o, ml, sl, bl in zip(cases, obs, mlines, slines, blines):
-        check_case(res, b, stream, o, ml, sl, bl)
+    for (stream, b), o, ml, sl, bl, wl, wbl in zip(cases, obs, mlines, slines, blines, wlines, wblines):
+        check_case(res, b, stream, o, ml, sl, bl, wline=wl, wbline=wbl)
         if stream == "valid":
             res.sample({"hex": C.hx(b)[:120], "status": o["status"], "valid": o["obj"]["valid"] if o["obj"] else None}, limit=3)
     if not driver_ok:
-        # python-only budget: depth and activations per name
+        # python-only budget (mirror of DecodeSpec.withinBudget / DecodeLib.workWithin / lineCost, used only when the driver does not build)
         for (stream, b), o in zip(cases, obs):
+            case = {"hex": C.hx(b), "len": len(b), "stream": stream}
             if o["depth"] > 129 or o["acts"] > 129 * max(1, o["names"]):
-                res.violate("C02:budget", "recursion depth %d / %d activations for %d names" % (o["depth"], o["acts"], o["names"]), {"hex": C.hx(b), "len": len(b)})
+                res.violate("C02:budget", "recursion depth %d / %d activations for %d names" % (o["depth"], o["acts"], o["names"]), case)
+            w = o.get("work")
+            if o.get("steps") is not None and w is not None and w[4] % 8 == 0 and "reads" in o:
+                q, r, calls, iters, bits, types = w
+                n = len(b)
+                if not (5 * q <= n + 5 and 11 * r <= n + 11 and calls <= r and bits // 8 + 2 * iters <= n + 2 and types <= bits):
+                    res.violate("C02:budget:loops", "loop counters exceed the linear budget for %d bytes: %s" % (n, ", ".join("%s=%d" % kv for kv in zip(WORK_KEYS, w))), case)
+                cost = (400 + 120 * q + 400 * r + 120 * o["names"] + 120 * o["acts"] + 80 * o["reads"] + 80 * calls + 60 * iters + 10 * bits + 12 * types)
+                if o["steps"] > cost:
+                    res.violate("C02:budget:lines", "decoding a %d-byte datagram executed %d source lines of the package: more than the calibrated cost model "
+                                "allows (%d)" % (n, o["steps"], cost), case)
     return driver_ok
 
 
@@ -1232,6 +1572,7 @@ def run(ctx):
         budget = budget * 5 // 4
     res.rule = ("datagrams from six streams (corpus; uniform random; wire-built valid messages and messages from the library's encoder, "
                 "plain and mutated by bit flips/truncation/insertion/count- and length-field corruption; pointer graphs: chains up to depth 4000, cycles, "
+                "NSEC records with as many / as full bitmap windows as 8966 bytes hold, rdlength past the packet, overshooting and duplicated windows; "
                 "self/forward references, pointers into rdata, empty-label chains; large datagrams (up to 8966 bytes) whose names are first defined "
                 "at offsets >= 0x1000 / 0x2000 / 8192 and referenced by pointers afterwards; exhaustive strings over {00,01,3F,40,C0,0C,FF,'a'} behind two fixed headers); "
                 "non-trivial = distinct (outcome, exception, valid, recursion depth, #questions, record kinds, strict-accepted) signature")
@@ -1249,12 +1590,20 @@ def run(ctx):
     guard_stream(res, driver_ok)
     res.notes.append("largest message on which the library agreed with the strict parser: %d records, %d questions"
                      % (res.streams.get("max-agreeing-records", 0), res.streams.get("max-agreeing-questions", 0)))
+    res.notes.append("work besides the name decoder (measured on the implementation with a line tracer, compared with the model's counters on every datagram): "
+                     "at most %d source lines of the package per datagram (a %d-byte one); largest loop counters: %s; %d decodes of >= %d lines also held to the "
+                     "CPU-time yardstick (%d yardstick lines per executed line + %.2f s)"
+                     % (res.streams.get("max-steps", 0), res.streams.get("max-steps-len", 0),
+                        ", ".join("%s=%d" % (k, res.streams.get("max-" + k, 0)) for k in WORK_KEYS), res.dist.get("cpu-checked", 0), CPU_MIN_STEPS, CPU_SLACK, CPU_FLOOR_S))
+    if loop_lines() is None:
+        res.notes.append("the loops of _read_questions/_read_others/_read_bitmap were not found in the shape the tracer expects: loop counters not measured, line budget not evaluated")
     res.notes.append("RFC 1035 name-length rule (255 wire octets) vs the 253-character rule of the property: %d RFC-legal datagrams rejected only because of "
                      "a 254-character name, %d datagrams accepted although a name exceeds 255 octets (reading, see ASSUMPTIONS)"
                      % (res.dist.get("rfc1035:legal-name-of-254-characters-rejected-by-the-253-rule", 0),
                         res.dist.get("rfc1035:name-over-255-octets-accepted-by-the-253-character-rule", 0)))
     # report an escaping exception before anything else, and the shortest witness of each signature first
-    res.violations.sort(key=lambda v: (0 if v["sig"].startswith("C02:escape") else 1, v["sig"], v["case"].get("len", 0)))
+    # (for the CPU budget the most blatant witness first: `rank` = -seconds/allowed)
+    res.violations.sort(key=lambda v: (0 if v["sig"].startswith("C02:escape") else 1, v["sig"], v["case"].get("rank", v["case"].get("len", 0))))
     return res
 
 
@@ -1278,16 +1627,22 @@ def replay(body):
                 "decoded_alone": _short(alone["obj"]), "decoded_interleaved": _short(views.get(il["which"])),
                 "model_disagrees": bool(res.disagreements)}
     data = bytes.fromhex(case["hex"]) if case.get("hex", "-") != "-" else b""
-    o = observe(data, True)
+    o = observe(data, True, steps=True)
     out = {"len": len(data), "status": o["status"], "exception": o["exc"], "depth": o["depth"], "activations": o["acts"], "names": o["names"],
-           "reads": o["reads"], "valid": o["obj"]["valid"] if o["obj"] else None}
+           "reads": o["reads"], "valid": o["obj"]["valid"] if o["obj"] else None, "steps": o.get("steps"),
+           "loops": dict(zip(WORK_KEYS, o["work"])) if o.get("work") else None}
+    if o.get("steps"):
+        o["cpu"] = cpu_check(data, max(o["steps"], CPU_MIN_STEPS))
+        out["cpu_seconds"], out["cpu_allowed"] = round(o["cpu"][1], 4), round(o["cpu"][2], 4)
     res = C.Result("C02")
-    ml = sl = bl = None
+    ml = sl = bl = wl = wbl = None
     try:
-        ml, sl, bl = C.run_driver(["c02 " + C.hx(data), "c02s " + C.hx(data), "c02b %d %d %d %d %d" % (len(data), o["names"], o["acts"], o["reads"], o["depth"])])
+        ml, sl, bl, wl, wbl = C.run_driver(["c02 " + C.hx(data), "c02s " + C.hx(data), "c02b %d %d %d %d %d" % (len(data), o["names"], o["acts"], o["reads"], o["depth"]),
+                                            "c02w " + C.hx(data), work_budget_line(data, o)])
+        wbl = wbl if " " in wbl else None
     except C.DriverUnavailable:
         pass
-    check_case(res, data, "replay", o, ml, sl, bl)
+    check_case(res, data, "replay", o, ml, sl, bl, wline=wl, wbline=wbl)
     out["violates"] = bool(res.violations)
     out["violations"] = [v["sig"] + ": " + v["what"] for v in res.violations]
     out["model"] = (ml or "")[:300]
